@@ -219,3 +219,22 @@ Proof.
       rewrite (IH (tl rooms) pre pos arr W1 Rt P) by lia.
       rewrite (dropN_all pos pre) by lia. cbn [app]. rewrite <- E1. reflexivity.
 Qed.
+
+(* ---------- the peek loop ends on its own: fuel beyond the amount of input is never used ---------- *)
+Lemma peek_fuel_irrelevant extract MAXP CHUNK pf : 0 < CHUNK ->
+  forall fuel1 fuel2 pre arrivals,
+    wfN arrivals -> measure arrivals < N.of_nat fuel1 -> measure arrivals < N.of_nat fuel2 ->
+    peek extract MAXP CHUNK pf fuel1 pre arrivals = peek extract MAXP CHUNK pf fuel2 pre arrivals.
+Proof.
+  intros C. induction fuel1 as [|f1 IH]; intros fuel2 pre arrivals W F1 F2; [lia|].
+  destruct fuel2 as [|f2]; [lia|]. cbn [peek].
+  destruct (negb pf && (MAXP <=? lenN pre)) eqn:G0; [reflexivity|].
+  destruct (extract pre); try reflexivity.
+  destruct (pf && (MAXP <=? lenN pre)) eqn:G1; [reflexivity|].
+  assert (Room : lenN pre < MAXP).
+  { destruct pf; cbn [negb andb] in G0, G1; lia. }
+  destruct (take_readN (N.min CHUNK (MAXP - lenN pre)) arrivals) as [r arr] eqn:T.
+  destruct (take_readN_spec (N.min CHUNK (MAXP - lenN pre)) arrivals r arr W ltac:(lia) T) as (E & L & W1 & Z & M).
+  destruct r as [|x r']; [reflexivity|]. specialize (M ltac:(discriminate)).
+  apply IH; [exact W1|lia|lia].
+Qed.
